@@ -30,7 +30,16 @@ def _isnan(I, args, kw):
     return VBool(False)
 
 
+def _deepcopy(I, args, kw):
+    """copy.deepcopy(x): assumed contract = a structurally equal value sharing no mutable part with x.
+    Only modelled for the python-side JSON model (JObj trees), literal dicts and encodable containers."""
+    from . import jsontree
+    I.ver.note_assumption("copy.deepcopy returns a structurally equal value with fresh identities (trusted stdlib contract)")
+    return jsontree.deepcopy(I, I.force(args[0]))
+
+
 TABLE = {
+    ("copy", "deepcopy"): _deepcopy,
     ("math", "sqrt"): _sqrt,
     ("math", "isfinite"): _isfinite,
     ("math", "isnan"): _isnan,
